@@ -1,19 +1,19 @@
 import GqlModel.Validate.Engine
-/- rules/unique_directives_per_location.go — note: the exemption tests the directive NAME
-   `repeatable`, not `Definition.IsRepeatable` (DESIGN §7 R8a) -/
+/- rules/unique_directives_per_location.go — the exemption is `dir.Definition.IsRepeatable`
+   (`dir.Definition = Schema.Directives[dir.Name]`, set by walkDirectives before the observers run) -/
 namespace Gql.Validate.Rules
 open Gql Gql.Validate
 
-def dupDirectives : List Directive → List Name → List RErr
+def dupDirectives (s : SV) : List Directive → List Name → List RErr
   | [], _ => []
   | d :: rest, seen =>
-    (if d.name != str "repeatable" && seen.contains d.name then
+    (if !((s.directive? d.name).map (·.repeatable)).getD false && seen.contains d.name then
       [errAt (str "The directive \"@" ++ d.name ++ str "\" can only be used once at this location.") d.pos] else [])
-      ++ dupDirectives rest (d.name :: seen)
+      ++ dupDirectives s rest (d.name :: seen)
 
-def uniqueDirectivesPerLocationStep (_ : SV) (_ : QueryDoc) (e : Event) : List RErr :=
+def uniqueDirectivesPerLocationStep (s : SV) (_ : QueryDoc) (e : Event) : List RErr :=
   match e.p with
-  | .directiveList ds => dupDirectives ds []
+  | .directiveList ds => dupDirectives s ds []
   | _ => []
 
 def uniqueDirectivesPerLocation : Rule := Rule.stateless (str "UniqueDirectivesPerLocation") uniqueDirectivesPerLocationStep
